@@ -124,9 +124,11 @@ def score(a, b, matrix):
     return sum(matrix[x][y] for x, y in zip(a, b))
 
 
-def is_match(q, r, rule):
-    """identical, or similar under the rule (summed score >= threshold)."""
-    if q == r:
+def is_match(q, r, rule, identical_always=True):
+    """identical, or similar under the rule (summed score >= threshold).
+    identical_always=False: with a rule, an identical k-mer whose self-score is
+    below the threshold does not count (the reading of finding C10-F2)."""
+    if q == r and (identical_always or rule is None):
         return True
     if rule is None:
         return False
@@ -136,12 +138,12 @@ def is_match(q, r, rule):
     return s >= rule["threshold"]
 
 
-def _hits(q, model, rule, cache):
+def _hits(q, model, rule, cache, identical_always=True):
     if rule is None:
         return [q] if q in model.by_kmer else []
     h = cache.get(q)
     if h is None:
-        h = [r for r in model.by_kmer if is_match(q, r, rule)]
+        h = [r for r in model.by_kmer if is_match(q, r, rule, identical_always)]
         cache[q] = h
     return h
 
@@ -154,25 +156,25 @@ def _positions(model, r):
     return pos
 
 
-def match_sequence(model, q_kmers, q_keep, rule):
+def match_sequence(model, q_kmers, q_keep, rule, identical_always=True):
     """list of (query pos, ref id, ref pos)"""
     out = []
     cache = {}
     for i, q in enumerate(q_kmers):
         if not q_keep[i]:
             continue
-        for r in _hits(q, model, rule, cache):
+        for r in _hits(q, model, rule, cache, identical_always):
             for rid, pos in _positions(model, r):
                 out.append((i, rid, pos))
     return out
 
 
-def match_tables(model, other, rule):
+def match_tables(model, other, rule, identical_always=True):
     """list of (other ref id, other pos, self ref id, self pos)"""
     out = []
     cache = {}
     for q, orid, opos in other.entries:
-        for r in _hits(q, model, rule, cache):
+        for r in _hits(q, model, rule, cache, identical_always):
             for rid, pos in _positions(model, r):
                 out.append((orid, opos, rid, pos))
     return out
